@@ -92,7 +92,7 @@ def check(a):
     t0 = time.time()
     prop = a.prop
     seed = int(os.environ.get("VERIF_SEED", "0") or 0)
-    outdir = os.path.join(VERIF, "out", prop)
+    outdir = os.path.join(os.environ.get("VERIF_OUT") or os.path.join(VERIF, "out"), prop)
     os.makedirs(os.path.join(outdir, "replay"), exist_ok=True)
     os.makedirs(os.path.join(VERIF, "evidence"), exist_ok=True)
     # 1. constants of the real, imported package (also proves that it imports)
@@ -122,7 +122,7 @@ def check(a):
     with ctx.Pool(jobs, initializer=_init, initargs=(consts_path, W.REPO)) as pool:
         results = pool.map(_run, [(n, prop, a.tier) for n in names], chunksize=1)
     from pyvc import report, selfcheck
-    extra = selfcheck.run(prop, a.tier, w, seed, outdir, run_harness)
+    extra = {} if os.environ.get("VERIF_NO_SELFCHECK") else selfcheck.run(prop, a.tier, w, seed, outdir, run_harness)
     return report.finish(prop, a, results, units, w, t0, seed, run_harness, extra)
 
 
